@@ -365,7 +365,7 @@ class C06(NlpCheck):
         if abs(nz[0]) > 1e-12 or abs(nz[-1] - 1) > 1e-12:
             return "endpoints %r %r" % (nz[0], nz[-1])
         for k in range(N + 1):
-            if abs(F(nz[k]) / tot - k / N) > 1e-5:
+            if abs(F(nz[k]) / tot - k / N) > 1e-4:
                 return "node %d at %r carries cumulative density %r, expected %r" % (k, nz[k], F(nz[k]) / tot, k / N)
         return None
 
@@ -731,8 +731,10 @@ class C11(NlpCheck):
                 with B.quiet():
                     x0 = ca.DM(bA.opti.debug.value(bA.opti.x, bA.opti.initial())).full().flatten().tolist()
                 phys0 = B.eval_phys(bA, [Fr(v) for v in x0], pv, fv)
-                for key, val in (('T', phys0['T'][0][0]), ('t0', phys0['t0'][0][0])):
+                for key, val, idx in (('T', phys0['T'][0][0], iT), ('t0', phys0['t0'][0][0], it0)):
                     want = user_guess.get(key, dA[key][1])
+                    if dA[key][0] == 'free' and idx is None:
+                        continue      # the horizon variable occurs in neither f nor g: CasADi's Opti does not list it in opti.x
                     if dA[key][0] == 'free' and val != want:
                         self.slice_ok["start-value-is-guess"] = False
                         self.violation("starting value of %s is %s, the guess in effect is %s (%s)" % (key, float(val), float(want),
@@ -876,6 +878,8 @@ class C14(NlpCheck):
             # layout: d phys / d solver variable = declared scale for states and controls
             sx = dA['scale_x']
             for i, (name, col, row, fac) in mapA.items():
+                if name == 'X' and dA['method']['kind'] == 'ss' and col != 0:
+                    continue      # single shooting: only X[0] is a decision variable, later nodes are functions of it
                 if name == 'X' and abs(fac - sx[row]) > 1e-12:
                     self.slice_ok["layout-is-diag-scale"] = False
                     self.violation("d(sampled state %d)/d(solver variable) = %r, declared scale %r" % (row, fac, sx[row]), {"desc": dA}, {"kind": "layout"})
@@ -1154,11 +1158,17 @@ class C07(SampleCheck):
                     sol = b.ocp.non_converged_solution
                 gist = np.array(sol.gist).flatten()
             for gname in ['control', 'integrator'] + (['integrator_roots'] if desc['method']['kind'] == 'dc' else []):
-                with B.quiet():
-                    tn, vn = sol.sample(E_, grid=gname)
-                    ts, vs = b.ocp.sample(E_, grid=gname)
-                    F = ca.Function('f', [b.ocp.gist], [ts, vs])
-                    tv, vv = F(gist)
+                try:
+                    with B.quiet():
+                        tn, vn = sol.sample(E_, grid=gname)
+                        ts, vs = b.ocp.sample(E_, grid=gname)
+                        F = ca.Function('f', [b.ocp.gist], [ts, vs])
+                        tv, vv = F(gist)
+                except RuntimeError as ex:
+                    if 'symbol_active' in str(ex) or 'are free' in str(ex):
+                        self.count("skipped-inactive-variable")
+                        break     # a declared variable that occurs in neither f nor g is not part of opti.x (CasADi): nothing to read back
+                    raise
                 tv = np.array(tv).flatten(); vv = np.array(vv)
                 npts = tv.shape[0]
                 self.evaluations += 1
@@ -1319,6 +1329,9 @@ class C08(SampleCheck):
                 with B.quiet():
                     f = b.ocp.sampler('smp', [Mo.E.to_casadi(e, b.sym_base)])
             except Exception as ex:
+                if 'are free' in str(ex) or 'symbol_active' in str(ex):
+                    self.count("skipped-inactive-variable")
+                    continue      # a declared variable that occurs in neither f nor g is not part of opti.x (CasADi): nothing to sample
                 self.slice_ok["sampler"] = False
                 self.violation("ocp.sampler raised %s: %s" % (type(ex).__name__, str(ex)[:300]), {"desc": desc}, {"kind": "sampler-exception"})
                 return
@@ -1658,10 +1671,21 @@ class C20(Check):
         elif fault == 'nonscalar_objective':
             ocp.add_objective(ocp.at_tf(ca.vertcat(x[0], x[0])))
         elif fault == 'set_value_nonparameter':
-            ocp.set_value(x, 1)
+            # any non-parameter: a state, a control, a decision variable of any grid
+            kind = rng.choice(['state', 'variable', 'variable_control', 'variable_control+', 'control'])
+            if kind == 'state' or (kind == 'control' and not b.controls):
+                ocp.set_value(x, 1)
+            elif kind == 'control':
+                ocp.set_value(rng.choice(b.controls), 1)
+            elif kind == 'variable':
+                ocp.set_value(ocp.variable(), 1)
+            elif kind == 'variable_control':
+                ocp.set_value(ocp.variable(grid='control'), 1)
+            else:
+                ocp.set_value(ocp.variable(grid='control', include_last=True), 1)
         elif fault == 'set_value_nonparameter_live':
             ocp.sample(x, grid='control')
-            ocp.set_value(x, 1)
+            ocp.set_value(rng.choice([x, ocp.variables[''][0]]) if ocp.variables[''] else x, 1)
         elif fault == 'set_initial_parameter':
             p = ocp.parameter(); ocp.set_value(p, 1)
             ocp.set_initial(p, 1)
@@ -1752,9 +1776,9 @@ class C20(Check):
                         continue
                     # the well-posed twin must be accepted
                     import rockit.direct_method as DM_
+                    nt0 = self.count_solver_calls()
                     try:
                         bt = B.build(desc, transcribe=False)
-                        nt0 = self.count_solver_calls()
                         with B.quiet():
                             bt.ocp.solve_limited()
                     except Exception as ex:
